@@ -13,7 +13,7 @@
    not the next recorded one), so the model must predict the unifier's result and, exactly,
    the calls each member received.  Independently of the model the harness snapshots both
    members (all listings and all contents) around every step. *)
-From Coq Require Import String.
+From Coq Require Import String Sorted.
 From OCI Require Export Base.Outcome Model.Unify.
 From OCI Require Import Proofs.Unify.
 
@@ -178,6 +178,34 @@ Section Hist.
   Definition equal_kept (h : hstep) : bool :=
     implb (h_eq_before h && negb (h_excused h)) (h_eq_after h).
 
+  (* well-formedness of a recording (nothing the implementation can influence):
+     only PushBlob streams content; a member whose content stream was cut is recorded
+     as not called, and at most one member is cut (the pipe of a member is closed with an error only after the OTHER
+     member has returned) *)
+  Definition is_push_blob (o : op) : bool := match o with PushBlob _ _ _ => true | _ => false end.
+  Definition cut_ok (h : hstep) : bool :=
+    match h_cut0 h, h_cut1 h with
+    | None, None => true
+    | Some _, None => is_push_blob (h_op h) && match h_calls0 h with [] => true | _ => false end
+    | None, Some _ => is_push_blob (h_op h) && match h_calls1 h with [] => true | _ => false end
+    | Some _, Some _ => false
+    end.
+
+  (* BlobWriter.ID returns a string, never an error; the reference codec was asked about
+     the pair of member IDs *)
+  Definition enc_has (a b : bytes) : bool :=
+    existsb (fun e => beqb (fst (fst e)) a && beqb (snd (fst e)) b) enc.
+  Definition wid_known (h : hstep) : bool :=
+    match h_op h with
+    | WID _ =>
+        match h_calls0 h, h_calls1 h with
+        | [(_, Ok (RStr a))], [(_, Ok (RStr b))] => enc_has a b
+        | [], [] => true
+        | _, _ => false
+        end
+    | _ => true
+    end.
+
   Definition try_step (ws : list uwriter) (h : hstep) (f : bool) : option (list uwriter) :=
     let st := fst (hmodel ws h f) in
     let r := snd (hmodel ws h f) in
@@ -186,6 +214,7 @@ Section Hist.
        && list_eqb op_eqb (rev (u_log0 st)) (map fst (h_calls0 h))
        && list_eqb op_eqb (rev (u_log1 st)) (map fst (h_calls1 h))
        && equal_kept h
+       && cut_ok h && wid_known h && properb (h_res h)
     then Some (u_ws st) else None.
 
   Definition step_agrees (ws : list uwriter) (h : hstep) : option (list uwriter) :=
@@ -235,7 +264,7 @@ Section Hist.
     end.
 
   Definition spec_step (nw : N) (h : hstep) : bool :=
-    equal_kept h &&
+    equal_kept h && properb (h_res h) &&       (* equal members stay equal; the unifier does not panic *)
     match h_op h with
     | PushBlob _ _ _ =>
         match h_cut0 h, h_cut1 h with
@@ -293,10 +322,17 @@ End Hist.
 
 (* ================= the case-level functions ================= *)
 
+(* the harness's reference codec round-trips on every pair it was asked to encode *)
+Definition codec_coherent (enc : list (bytes * bytes * bytes)) (dec : list (bytes * option (list bytes))) : bool :=
+  forallb (fun e => match tab_dec dec (snd e) with
+                    | Some [a; b] => beqb (fst (fst e)) a && beqb (snd (fst e)) b
+                    | _ => false
+                    end) enc.
+
 Definition model_agrees (c : case) : bool :=
   match c with
   | CRead pol o m0 m1 u n0 n1 => read_agrees pol o m0 m1 u n0 n1
-  | CHist pol enc dec steps => hist_agrees pol enc dec [] steps
+  | CHist pol enc dec steps => codec_coherent enc dec && hist_agrees pol enc dec [] steps
   end.
 
 Definition obs_ok (c : case) : bool :=
@@ -305,20 +341,393 @@ Definition obs_ok (c : case) : bool :=
   | CHist pol enc dec steps => spec_hist dec 0 steps
   end.
 
-(* a read case is non-trivial when the two members answer differently (the only situation
-   in which the union rules matter); a history when some write reached both members *)
+(* a read case is non-trivial when the two members answer differently - one has it and the
+   other not, or both answer and the answers differ (the only situations in which the union
+   rules matter); a history when some write reached both members *)
 Definition is_mutation (o : op) : bool := negb (is_read o) && negb (match o with WSize _ | WChunkSize _ | WID _ => true | _ => false end).
 Definition nontrivial (c : case) : bool :=
   match c with
-  | CRead _ _ m0 m1 _ _ _ => negb (result_eqb m0 m1)
+  | CRead _ _ m0 m1 _ _ _ =>
+      negb (Bool.eqb (is_ok m0) (is_ok m1)) || (is_ok m0 && is_ok m1 && negb (result_eqb m0 m1))
   | CHist _ _ _ steps =>
       existsb (fun h => is_mutation (h_op h)
                         && match h_calls0 h, h_calls1 h with _ :: _, _ :: _ => true | _, _ => false end) steps
   end.
 
+(* ================= corr_sound ================= *)
+
+Lemma properb_proper r : properb r = true -> proper r.
+Proof. destruct r; cbn; auto; discriminate. Qed.
+
+Lemma result_eqb_refl r : result_eqb r r = true.
+Proof. now apply result_eqb_eq. Qed.
+
+Lemma desc_eqb_refl d : desc_eqb d d = true.
+Proof. now apply desc_eqb_eq. Qed.
+
+(* --- reads --- *)
+
+Lemma ssortedb_sorted l : StronglySorted blt l -> ssortedb l = true.
+Proof.
+  induction l as [|a l IH]; [reflexivity|]. intros H. inversion H as [|? ? H' A]; subst.
+  destruct l as [|b l]; [reflexivity|]. cbn [ssortedb].
+  inversion A; subst. apply andb_true_iff. split; [now apply bltb_lt | auto].
+Qed.
+
+Lemma sorted_map_key {T} (key : T -> bytes) l :
+  StronglySorted (klt key) l -> StronglySorted blt (map key l).
+Proof.
+  induction 1 as [|a l H IH A]; cbn; constructor; auto.
+  apply Forall_forall. intros k Hk. apply in_map_iff in Hk as (b & <- & Hb).
+  rewrite Forall_forall in A. now apply A.
+Qed.
+
+Lemma spec_listing_merge {T} (key : T -> bytes) (teqb : T -> T -> bool) xs0 e0 xs1 e1 :
+  (forall a, teqb a a = true) ->
+  spec_listing key teqb xs0 e0 xs1 e1
+    (fst (merge_iter key xs0 e0 xs1 e1)) (snd (merge_iter key xs0 e0 xs1 e1)) = true.
+Proof.
+  intros Hrefl. rewrite merge_iter_items_eq, merge_iter_err_eq. unfold spec_listing, merged_err.
+  change (@nf) with (@not_found).
+  destruct (not_found e0 && not_found e1) eqn:NF.
+  - apply andb_true_iff in NF as [N0 _]. now rewrite N0.
+  - destruct (merged_spec key xs0 xs1) as (S1 & S2 & S3).
+    repeat (apply andb_true_iff; split).
+    + apply ssortedb_sorted. now apply sorted_map_key.
+    + apply forallb_forall. intros a Ha. apply existsb_exists. exists a. split; [|apply Hrefl].
+      apply in_or_app. now apply S2.
+    + apply forallb_forall. intros a Ha. apply existsb_exists.
+      apply in_app_or in Ha. destruct (S3 a Ha) as (y & Hy & E). exists y. split; [exact Hy|].
+      rewrite E. apply beqb_refl.
+    + unfold real_err. change (@nf) with (@not_found).
+      destruct e0 as [a|], e1 as [b|]; cbn in *;
+        try destruct (ecode_eqb (e_code a) NAME_UNKNOWN) eqn:A;
+        try destruct (ecode_eqb (e_code b) NAME_UNKNOWN) eqn:B; cbn in *; try discriminate;
+        rewrite ?A, ?B; cbn;
+        try reflexivity;
+        try (assert (err_eqb a a = true) as -> by (now apply err_eqb_eq); reflexivity);
+        try (assert (err_eqb b b = true) as -> by (now apply err_eqb_eq); rewrite ?orb_true_r; reflexivity).
+Qed.
+
+Lemma read_sound pol o m0 m1 u n0 n1 :
+  read_agrees pol o m0 m1 u n0 n1 = true -> is_read o && spec_read o m0 m1 u = true.
+Proof.
+  unfold read_agrees. intros H.
+  apply andb_true_iff in H as [H Hex]. apply andb_true_iff in H as [H P1]. apply andb_true_iff in H as [Hr P0].
+  rewrite Hr. cbn [andb]. unfold spec_read. rewrite P0, P1. cbn [andb].
+  apply existsb_exists in Hex as (f & _ & Hf).
+  apply andb_true_iff in Hf as [Hf _]. apply andb_true_iff in Hf as [Hf _].
+  apply result_eqb_eq in Hf. unfold read_model in Hf.
+  set (st := uinit tt tt : ustate unit unit) in *.
+  assert (A0 : forall o', ans0 (const_member m0) st o' = m0) by reflexivity.
+  assert (A1 : forall o', ans1 (const_member m1) st o' = m1) by reflexivity.
+  apply properb_proper in P0 as Q0. apply properb_proper in P1 as Q1.
+  destruct (is_digest_read o) eqn:Hd.
+  - pose proof (union_reads (const_member m0) (const_member m1) no_enc no_dec pol (choose f) st o Hd) as U.
+    rewrite A0, A1 in U. specialize (U Q0 Q1). cbv zeta in U. rewrite Hf in U.
+    destruct U as (U1 & U2 & U3). unfold spec_digest_read.
+    rewrite <- U1, Bool.eqb_reflx. cbn [andb].
+    apply andb_true_iff. split.
+    + destruct U2 as [->| ->]; rewrite result_eqb_refl; [reflexivity | apply orb_true_r].
+    + unfold implb. destruct (is_ok u) eqn:K; [|reflexivity]. cbn [negb orb].
+      destruct (U3 eq_refl) as [[-> K']|[-> K']]; rewrite result_eqb_refl, K'; [reflexivity | apply orb_true_r].
+  - destruct (is_tag_read o) eqn:Ht.
+    + pose proof (ustep_tag_read (const_member m0) (const_member m1) no_enc no_dec pol (choose f) st o Ht) as U.
+      rewrite A0, A1, Hf in U. clear Hf. subst u. unfold spec_tag_read.
+      destruct m0 as [a| | |], m1 as [b| | |]; cbn in Q0, Q1; try contradiction; cbn [okdig tag_result].
+      * destruct (beqb (res_digest a) (res_digest b)); [|reflexivity].
+        change (result_eqb (Ok a) (Ok a) || result_eqb (Ok a) (Ok b) = true). now rewrite result_eqb_refl.
+      * apply result_eqb_refl.
+      * apply result_eqb_refl.
+      * reflexivity.
+    + unfold is_read in Hr. rewrite Hd, Ht in Hr. cbn in Hr.
+      destruct o; cbn in Hr; try discriminate.
+      * pose proof (ustep_list_strings (const_member m0) (const_member m1) no_enc no_dec pol (choose f) st (Repositories start) I) as U.
+        rewrite A0, A1, Hf in U. clear Hf. subst u. unfold merge_strings.
+        destruct m0 as [a| | |], m1 as [b| | |]; cbn in Q0, Q1; try contradiction; cbn [is_panicky];
+          destruct (as_strings _) as [l0 q0]; destruct (as_strings _) as [l1 q1];
+          destruct (merge_iter _ l0 q0 l1 q1) as [lx qx] eqn:M;
+          pose proof (spec_listing_merge (fun a : bytes => a) beqb l0 q0 l1 q1 beqb_refl) as S;
+          rewrite M in S; exact S.
+      * pose proof (ustep_list_strings (const_member m0) (const_member m1) no_enc no_dec pol (choose f) st (Tags r start) I) as U.
+        rewrite A0, A1, Hf in U. clear Hf. subst u. unfold merge_strings.
+        destruct m0 as [a| | |], m1 as [b| | |]; cbn in Q0, Q1; try contradiction; cbn [is_panicky];
+          destruct (as_strings _) as [l0 q0]; destruct (as_strings _) as [l1 q1];
+          destruct (merge_iter _ l0 q0 l1 q1) as [lx qx] eqn:M;
+          pose proof (spec_listing_merge (fun a : bytes => a) beqb l0 q0 l1 q1 beqb_refl) as S;
+          rewrite M in S; exact S.
+      * pose proof (ustep_list_descs (const_member m0) (const_member m1) no_enc no_dec pol (choose f) st r d art) as U.
+        rewrite A0, A1, Hf in U. clear Hf. subst u. unfold merge_descs.
+        destruct m0 as [a| | |], m1 as [b| | |]; cbn in Q0, Q1; try contradiction; cbn [is_panicky];
+          destruct (as_descs _) as [l0 q0]; destruct (as_descs _) as [l1 q1];
+          destruct (merge_iter _ l0 q0 l1 q1) as [lx qx] eqn:M;
+          pose proof (spec_listing_merge d_digest desc_eqb l0 q0 l1 q1 desc_eqb_refl) as S;
+          rewrite M in S; exact S.
+Qed.
+
+(* --- histories --- *)
+
+Lemma op_eqb_refl o : op_eqb o o = true.
+Proof. now apply op_eqb_eq. Qed.
+
+Lemma script_ans o r rest : snd (script_step (mk_script ((o, r) :: rest)) o) = r.
+Proof. unfold script_step, mk_script. cbn. now rewrite op_eqb_refl. Qed.
+
+Lemma log_eq (log : list op) (calls : list (op * result)) :
+  list_eqb op_eqb (rev log) (map fst calls) = true -> rev log = map fst calls.
+Proof. apply (list_eqb_eq op_eqb op_eqb_eq). Qed.
+
+Lemma member_calls_spec (o oi : op) (own : option bytes) (log l : list op) (calls : list (op * result)) :
+  log = l ++ [oi] -> forallb is_followup l = true ->
+  list_eqb op_eqb (rev log) (map fst calls) = true ->
+  erase oi = erase o ->
+  match oi with PushBlobChunkedResume _ id _ _ => own = Some id | _ => True end ->
+  exists r rest, calls = (oi, r) :: rest /\ spec_member o own calls = Some r.
+Proof.
+  intros -> Hf Hl He Hown. apply log_eq in Hl. rewrite rev_app_distr in Hl. cbn in Hl.
+  destruct calls as [|[o' r] rest]; [discriminate|]. cbn in Hl. injection Hl as <- Hrest.
+  exists r, rest. split; [reflexivity|]. unfold spec_member.
+  rewrite He, op_eqb_refl. cbn [andb].
+  assert (Hfol : forallb (fun c : op * result => is_followup (fst c)) rest = true).
+  { apply forallb_forall. intros c Hc.
+    assert (In (fst c) (rev l)) by (rewrite Hrest; now apply in_map).
+    rewrite forallb_forall in Hf. apply Hf. now apply in_rev. }
+  rewrite Hfol, andb_true_r.
+  destruct oi; try reflexivity. rewrite Hown. now rewrite beqb_refl.
+Qed.
+
+Section HistSound.
+  Variable pol : policy.
+  Variable enc : list (bytes * bytes * bytes).
+  Variable dec : list (bytes * option (list bytes)).
+
+  Notation ustepS := (ustep script_step script_step (tab_enc enc) (tab_dec dec)).
+
+  Definition hchoice (h : hstep) (f : bool) : choice :=
+    {| c_first1 := f; c_cut0 := h_cut0 h; c_cut1 := h_cut1 h |}.
+
+  Lemma hmodel_eq ws h f : hmodel pol enc dec ws h f = ustepS pol (hchoice h f) (hstate ws h) (h_op h).
+  Proof. reflexivity. Qed.
+
+  (* the replicated writes *)
+  Lemma replicated_sound ws h f o0 o1 own0 own1 converse :
+    h_cut0 h = None -> h_cut1 h = None ->
+    member_op (tab_dec dec) false (hstate ws h) (h_op h) = Some o0 ->
+    member_op (tab_dec dec) true (hstate ws h) (h_op h) = Some o1 ->
+    match o0 with PushBlobChunkedResume _ id _ _ => own0 = Some id | _ => True end ->
+    match o1 with PushBlobChunkedResume _ id _ _ => own1 = Some id | _ => True end ->
+    (converse = true -> is_direct_write (h_op h) = true) ->
+    snd (hmodel pol enc dec ws h f) = h_res h ->
+    list_eqb op_eqb (rev (u_log0 (fst (hmodel pol enc dec ws h f)))) (map fst (h_calls0 h)) = true ->
+    list_eqb op_eqb (rev (u_log1 (fst (hmodel pol enc dec ws h f)))) (map fst (h_calls1 h)) = true ->
+    spec_both h own0 own1 converse = true.
+  Proof.
+    intros C0 C1 M0 M1 O0 O1 Hconv Hres L0 L1. rewrite hmodel_eq in *.
+    assert (U : uncut (hchoice h f)) by (split; assumption).
+    destruct (writes_replicated script_step script_step (tab_enc enc) (tab_dec dec) pol (hchoice h f)
+                (hstate ws h) (h_op h) o0 o1 U M0 M1) as ((l0 & E0 & F0) & (l1 & E1 & F1) & Hok).
+    cbn [hstate u_log0 u_log1] in E0, E1.
+    destruct (member_calls_spec (h_op h) o0 own0 _ l0 (h_calls0 h) E0 F0 L0
+                (member_op_same_args _ _ _ _ _ M0) O0) as (r0 & rest0 & K0 & S0).
+    destruct (member_calls_spec (h_op h) o1 own1 _ l1 (h_calls1 h) E1 F1 L1
+                (member_op_same_args _ _ _ _ _ M1) O1) as (r1 & rest1 & K1 & S1).
+    unfold spec_both. rewrite S0, S1.
+    assert (A0 : ans0 script_step (hstate ws h) o0 = r0).
+    { unfold ans0, hstate. cbn [u_b0]. rewrite K0. apply script_ans. }
+    assert (A1 : ans1 script_step (hstate ws h) o1 = r1).
+    { unfold ans1, hstate. cbn [u_b1]. rewrite K1. apply script_ans. }
+    rewrite A0, A1, Hres in Hok.
+    apply andb_true_iff. split.
+    - unfold implb. destruct (is_ok (h_res h)); [|reflexivity]. destruct (Hok eq_refl) as [-> ->]. reflexivity.
+    - unfold implb. destruct converse; [|reflexivity]. cbn [andb].
+      destruct (is_ok r0) eqn:R0; [|reflexivity]. destruct (is_ok r1) eqn:R1; [|reflexivity]. cbn [andb negb orb].
+      rewrite <- Hres. eapply writes_converse; eauto. now rewrite A0. now rewrite A1.
+  Qed.
+
+  Lemma calls_nil (log : list op) (calls : list (op * result)) :
+    log = [] -> list_eqb op_eqb (rev log) (map fst calls) = true -> calls = [].
+  Proof. intros -> H. apply log_eq in H. destruct calls; [reflexivity | discriminate]. Qed.
+
+  Lemma calls_one (log : list op) (calls : list (op * result)) o :
+    log = [o] -> list_eqb op_eqb (rev log) (map fst calls) = true -> exists r, calls = [(o, r)].
+  Proof.
+    intros -> H. apply log_eq in H. destruct calls as [|[o' r] [|? ?]]; try discriminate.
+    cbn in H. injection H as <-. eauto.
+  Qed.
+
+  Lemma get_writer_some ws h k : N.ltb k (nlen ws) = true -> exists w, get_writer (hstate ws h) k = Some w.
+  Proof.
+    intros H. unfold get_writer, hstate. cbn [u_ws]. destruct (nth_error ws (N.to_nat k)) eqn:E; [eauto|].
+    apply nth_error_None in E. apply N.ltb_lt in H. unfold nlen in H. lia.
+  Qed.
+
+  Lemma existsb_find {A} (p : A -> bool) l : existsb p l = true -> exists e, find p l = Some e.
+  Proof.
+    induction l as [|a l IH]; cbn; [discriminate|]. destruct (p a); [eauto|]. cbn. exact IH.
+  Qed.
+
+  Lemma codec_lookup a b :
+    codec_coherent enc dec = true -> enc_has enc a b = true ->
+    tab_dec dec (tab_enc enc a b) = Some [a; b].
+  Proof.
+    intros Hc He. unfold enc_has in He. apply existsb_find in He as (e & Hf).
+    unfold tab_enc. rewrite Hf. apply find_some in Hf as [Hin Hp].
+    unfold codec_coherent in Hc. rewrite forallb_forall in Hc. specialize (Hc e Hin).
+    apply andb_true_iff in Hp as [Pa Pb]. apply beqb_eq in Pa. apply beqb_eq in Pb.
+    destruct (tab_dec dec (snd e)) as [[|a' [|b' [|? ?]]]|]; try discriminate.
+    apply andb_true_iff in Hc as [Qa Qb]. apply beqb_eq in Qa. apply beqb_eq in Qb. congruence.
+  Qed.
+
+  Lemma next_nw_creates nw h :
+    next_nw nw h = if creates_writer (h_op h) (h_res h) then N.succ nw else nw.
+  Proof. unfold next_nw, creates_writer. destruct (h_op h); try reflexivity; destruct (h_res h) as [[]| | |]; reflexivity. Qed.
+
+  Lemma step_sound ws h f ws' :
+    codec_coherent enc dec = true ->
+    try_step pol enc dec ws h f = Some ws' ->
+    spec_step dec (nlen ws) h = true /\ nlen ws' = next_nw (nlen ws) h.
+  Proof.
+    intros Hcodec. unfold try_step.
+    destruct (result_eqb _ _ && _ && _ && _ && _ && _ && _ && _ && _) eqn:C; [|discriminate].
+    intros H; injection H as <-.
+    repeat (apply andb_true_iff in C; destruct C as [C ?]).
+    rename C into Hres, H into Hprop, H0 into Hwid, H1 into Hcut, H2 into Heq, H3 into L1, H4 into L0.
+    apply result_eqb_eq in Hres.
+    split.
+    2:{ rewrite next_nw_creates, <- Hres. rewrite hmodel_eq. unfold nlen.
+        rewrite ustep_ws_length. cbn [hstate u_ws].
+        destruct (creates_writer _ _); [now rewrite Nat2N.inj_succ | reflexivity]. }
+    unfold spec_step. rewrite Heq, Hprop. cbn [andb].
+    assert (NoCut : is_push_blob (h_op h) = false -> h_cut0 h = None /\ h_cut1 h = None).
+    { intros Hn. unfold cut_ok in Hcut. rewrite Hn in Hcut.
+      destruct (h_cut0 h), (h_cut1 h); try discriminate; auto. }
+    destruct (h_op h) eqn:Ho; try reflexivity.
+    - (* PushBlob *)
+      destruct (h_cut0 h) as [e0|] eqn:C0, (h_cut1 h) as [e1|] eqn:C1.
+      + unfold cut_ok in Hcut. now rewrite C0, C1 in Hcut.
+      + (* member 0 cut *)
+        unfold cut_ok in Hcut. rewrite C0, C1, Ho in Hcut. cbn in Hcut.
+        destruct (h_calls0 h) eqn:K0; [|discriminate].
+        rewrite hmodel_eq in *. rewrite Ho in *. cbn [Unify.ustep] in *. unfold push_blob in *.
+        rewrite call0_eq, call1_eq in *. cbn [hchoice c_cut0 c_cut1 c_first1] in *. rewrite C0, C1 in *.
+        cbn [fst snd u_b0 u_b1 u_log0 u_log1 u_ws hstate] in *.
+        set (o := PushBlob r de content) in *.
+        destruct (is_errb (ans1 script_step (hstate ws h) o)) eqn:E1.
+        2:{ cbn in L0. discriminate. }
+        cbn [u_log0 u_log1] in L0, L1.
+        destruct (calls_one _ _ o eq_refl L1) as (r1 & K1). rewrite K1.
+        unfold spec_member. cbn [erase]. rewrite op_eqb_refl. cbn [andb forallb].
+        assert (A1 : ans1 script_step (hstate ws h) o = r1).
+        { unfold ans1, hstate. cbn [u_b1]. rewrite K1. apply script_ans. }
+        rewrite A1 in *. destruct r1; try discriminate. cbn [is_err andb].
+        rewrite <- Hres. destruct f; reflexivity.
+      + (* member 1 cut *)
+        unfold cut_ok in Hcut. rewrite C0, C1, Ho in Hcut. cbn in Hcut.
+        destruct (h_calls1 h) eqn:K1; [|discriminate].
+        rewrite hmodel_eq in *. rewrite Ho in *. cbn [Unify.ustep] in *. unfold push_blob in *.
+        rewrite call0_eq, call1_eq in *. cbn [hchoice c_cut0 c_cut1 c_first1] in *. rewrite C0, C1 in *.
+        cbn [fst snd u_b0 u_b1 u_log0 u_log1 u_ws hstate] in *.
+        set (o := PushBlob r de content) in *.
+        destruct (is_errb (ans0 script_step (hstate ws h) o)) eqn:E0.
+        2:{ cbn in L1. discriminate. }
+        cbn [u_log0 u_log1] in L0, L1.
+        destruct (calls_one _ _ o eq_refl L0) as (r0 & K0). rewrite K0.
+        unfold spec_member. cbn [erase]. rewrite op_eqb_refl. cbn [andb forallb].
+        assert (A0 : ans0 script_step (hstate ws h) o = r0).
+        { unfold ans0, hstate. cbn [u_b0]. rewrite K0. apply script_ans. }
+        rewrite A0 in *. destruct r0; try discriminate. cbn [is_err andb].
+        rewrite <- Hres. destruct f; reflexivity.
+      + eapply replicated_sound with (f := f) (o0 := h_op h) (o1 := h_op h); eauto;
+          rewrite ?Ho; try reflexivity; auto.
+    - (* PushBlobChunked *)
+      destruct (NoCut eq_refl) as [C0 C1].
+      eapply replicated_sound with (f := f) (o0 := h_op h) (o1 := h_op h); eauto;
+        rewrite ?Ho; try reflexivity; auto; discriminate.
+    - (* PushBlobChunkedResume *)
+      destruct (NoCut eq_refl) as [C0 C1].
+      destruct (tab_dec dec id) as [[|a [|b [|? ?]]]|] eqn:D.
+      3:{
+          eapply replicated_sound with (f := f) (o0 := PushBlobChunkedResume r a off hint)
+                                       (o1 := PushBlobChunkedResume r b off hint); eauto;
+            rewrite ?Ho; cbn; rewrite ?D; try reflexivity; auto; discriminate. }
+      all: rewrite hmodel_eq, Ho in *; cbn [Unify.ustep] in *; unfold push_resume in *; rewrite D in *;
+        cbn [fst snd hstate u_log0 u_log1] in *;
+        unfold no_calls; rewrite (calls_nil _ _ eq_refl L0), (calls_nil _ _ eq_refl L1), <- Hres; reflexivity.
+    - destruct (NoCut eq_refl) as [C0 C1].
+      eapply replicated_sound with (f := f) (o0 := h_op h) (o1 := h_op h); eauto;
+        rewrite ?Ho; try reflexivity; auto.
+    - destruct (NoCut eq_refl) as [C0 C1].
+      eapply replicated_sound with (f := f) (o0 := h_op h) (o1 := h_op h); eauto;
+        rewrite ?Ho; try reflexivity; auto.
+    - destruct (NoCut eq_refl) as [C0 C1].
+      eapply replicated_sound with (f := f) (o0 := h_op h) (o1 := h_op h); eauto;
+        rewrite ?Ho; try reflexivity; auto.
+    - destruct (NoCut eq_refl) as [C0 C1].
+      eapply replicated_sound with (f := f) (o0 := h_op h) (o1 := h_op h); eauto;
+        rewrite ?Ho; try reflexivity; auto.
+    - destruct (NoCut eq_refl) as [C0 C1].
+      eapply replicated_sound with (f := f) (o0 := h_op h) (o1 := h_op h); eauto;
+        rewrite ?Ho; try reflexivity; auto.
+    - (* Write *)
+      destruct (NoCut eq_refl) as [C0 C1].
+      destruct (N.ltb w (nlen ws)) eqn:Lt; [|reflexivity].
+      destruct (get_writer_some ws h w Lt) as (uw & G).
+      eapply replicated_sound with (f := f) (o0 := WWrite (uw0 uw) data) (o1 := WWrite (uw1 uw) data); eauto;
+        rewrite ?Ho; cbn; rewrite ?G; try reflexivity; auto.
+    - (* Close *)
+      destruct (NoCut eq_refl) as [C0 C1].
+      destruct (N.ltb w (nlen ws)) eqn:Lt; [|reflexivity].
+      destruct (get_writer_some ws h w Lt) as (uw & G).
+      eapply replicated_sound with (f := f) (o0 := WClose (uw0 uw)) (o1 := WClose (uw1 uw)); eauto;
+        rewrite ?Ho; cbn; rewrite ?G; try reflexivity; auto.
+    - (* ID *)
+      destruct (NoCut eq_refl) as [C0 C1].
+      destruct (N.ltb w (nlen ws)) eqn:Lt; [|reflexivity].
+      destruct (get_writer_some ws h w Lt) as (uw & G).
+      rewrite hmodel_eq, Ho in *. cbn [Unify.ustep] in *. rewrite G in *. rewrite both_eq in *.
+      cbn [fst snd after_both hstate u_log0 u_log1] in *.
+      destruct (calls_one _ _ _ eq_refl L0) as (r0 & K0). destruct (calls_one _ _ _ eq_refl L1) as (r1 & K1).
+      unfold wid_known in Hwid. rewrite Ho, K0, K1 in Hwid. rewrite K0, K1.
+      destruct r0 as [[]| | |]; try discriminate. destruct r1 as [[]| | |]; try discriminate.
+      assert (A0 : ans0 script_step (hstate ws h) (WID (uw0 uw)) = Ok (RStr s)).
+      { unfold ans0, hstate. cbn [u_b0]. rewrite K0. apply script_ans. }
+      assert (A1 : ans1 script_step (hstate ws h) (WID (uw1 uw)) = Ok (RStr s0)).
+      { unfold ans1, hstate. cbn [u_b1]. rewrite K1. apply script_ans. }
+      rewrite A0, A1 in Hres. rewrite <- Hres.
+      rewrite (codec_lookup _ _ Hcodec Hwid). now rewrite !beqb_refl.
+    - (* Commit *)
+      destruct (NoCut eq_refl) as [C0 C1].
+      destruct (N.ltb w (nlen ws)) eqn:Lt; [|reflexivity].
+      destruct (get_writer_some ws h w Lt) as (uw & G).
+      eapply replicated_sound with (f := f) (o0 := WCommit (uw0 uw) d) (o1 := WCommit (uw1 uw) d); eauto;
+        rewrite ?Ho; cbn; rewrite ?G; try reflexivity; auto.
+    - (* Cancel *)
+      destruct (NoCut eq_refl) as [C0 C1].
+      destruct (N.ltb w (nlen ws)) eqn:Lt; [|reflexivity].
+      destruct (get_writer_some ws h w Lt) as (uw & G).
+      eapply replicated_sound with (f := f) (o0 := WCancel (uw0 uw)) (o1 := WCancel (uw1 uw)); eauto;
+        rewrite ?Ho; cbn; rewrite ?G; try reflexivity; auto.
+  Qed.
+
+  Lemma hist_sound steps : forall ws,
+    codec_coherent enc dec = true ->
+    hist_agrees pol enc dec ws steps = true -> spec_hist dec (nlen ws) steps = true.
+  Proof.
+    induction steps as [|h hs IH]; intros ws Hc H; [reflexivity|].
+    cbn [hist_agrees] in H. unfold step_agrees in H. cbn [spec_hist].
+    destruct (try_step pol enc dec ws h false) as [ws'|] eqn:T0.
+    - destruct (step_sound ws h false ws' Hc T0) as [S N]. rewrite S, <- N. now apply IH.
+    - destruct (try_step pol enc dec ws h true) as [ws'|] eqn:T1; [|discriminate].
+      destruct (step_sound ws h true ws' Hc T1) as [S N]. rewrite S, <- N. now apply IH.
+  Qed.
+End HistSound.
+
 Lemma corr_sound c : model_agrees c = true -> obs_ok c = true.
 Proof.
-Admitted.
+  destruct c as [pol o m0 m1 u n0 n1 | pol enc dec steps]; cbn [model_agrees obs_ok].
+  - apply read_sound.
+  - intros H. apply andb_true_iff in H as [Hc H]. exact (hist_sound pol enc dec steps [] Hc H).
+Qed.
 
 Definition mismatches (cs : list case) : list (N * bool) :=
   bad_from 0 (fun c => if model_agrees c then None else Some (obs_ok c)) cs.
